@@ -1,9 +1,9 @@
 #!/bin/sh
-# tools/try_seed.sh <seed-key> <property-id> [harness[,harness]]: run a check against a seeded change in the scratch worktree /tmp/mx2
+# tools/try_seed.sh <seed-key> <property-id> [harness[,harness]]: run a check against a seeded change in the scratch worktree ${MX:-/tmp/mx2}
 K="$1"; ID="$2"; H="${3:-}"
 cd /verif || exit 2
-git -C /repo worktree list | grep -q /tmp/mx2 || git -C /repo worktree add --detach /tmp/mx2 HEAD >/dev/null 2>&1
-git -C /tmp/mx2 checkout -q -- . ; git -C /tmp/mx2 clean -fdq
-git -C /tmp/mx2 apply /verif/seeded/$K/patch.diff || exit 3
-GOSYM_ONLY="$H" VERIF_REPO=/tmp/mx2 timeout ${CAP:-900} ./check $ID ${TIER:-quick} 2>&1 | grep -E "^(VIOLATION|RESULT|INCONCLUSIVE|UNCONFIRMED|  harness=)" | cut -c1-240 | head -8
-git -C /tmp/mx2 checkout -q -- . ; git -C /tmp/mx2 clean -fdq
+git -C /repo worktree list | grep -q ${MX:-/tmp/mx2} || git -C /repo worktree add --detach ${MX:-/tmp/mx2} HEAD >/dev/null 2>&1
+git -C ${MX:-/tmp/mx2} checkout -q -- . ; git -C ${MX:-/tmp/mx2} clean -fdq
+git -C ${MX:-/tmp/mx2} apply /verif/seeded/$K/patch.diff || exit 3
+GOSYM_ONLY="$H" VERIF_REPO=${MX:-/tmp/mx2} timeout ${CAP:-900} ./check $ID ${TIER:-quick} 2>&1 | grep -E "^(VIOLATION|RESULT|INCONCLUSIVE|UNCONFIRMED|  harness=)" | cut -c1-240 | head -8
+git -C ${MX:-/tmp/mx2} checkout -q -- . ; git -C ${MX:-/tmp/mx2} clean -fdq
